@@ -179,6 +179,17 @@ fn translit_flat(d: Dialect, toks: &[LexTok], lo: usize, hi: usize) -> Result<St
             i = close + 1;
             continue;
         }
+        // MySQL's LENGTH() counts bytes (CHAR_LENGTH counts characters); PostgreSQL's and SQLite's LENGTH of a text counts
+        // characters
+        if d == Dialect::Mysql && is_w(Some(t), "LENGTH") && is_p(toks.get(i + 1), "(") {
+            let close = matching(toks, i + 1).ok_or("unbalanced parentheses")?;
+            if close >= hi {
+                return Err("unbalanced parentheses in range".into());
+            }
+            out.push(format!("LENGTH(CAST(({}) AS BLOB))", translit_range(d, toks, i + 2, close)?));
+            i = close + 1;
+            continue;
+        }
         // MySQL VALUES ROW(..)
         if d == Dialect::Mysql && is_w(Some(t), "ROW") && is_p(toks.get(i + 1), "(") {
             i += 1;
@@ -444,6 +455,66 @@ fn run_expr_trees(rep: &Arc<Report>) -> (u64, u64) {
 /// long runs), integers at the edges, doubles and chars, inlined in `SELECT <value>, ..` and in a WHERE comparison on each
 /// backend; the MySQL and PostgreSQL texts are transliterated and all three are executed: the engine must return the
 /// same typed values.
+/// the portable construct families of C08 (named WINDOW, window frames and shapes, VALUES tables, CTEs derived from a
+/// SELECT, DISTINCT x ORDER BY x LIMIT x OFFSET) three-way: the MySQL and PostgreSQL renderings are transliterated and
+/// executed, and must return what the SQLite rendering of the same builder calls returns
+fn run_constructs(rep: &Arc<Report>) -> (u64, u64) {
+    let portable = ["named-window", "window-frame", "values-table", "cte-from-select", "distinct-limit-offset"];
+    let ex = crate::props::c08::extras(rep.thorough());
+    let (mut executed, mut skipped) = (0u64, 0u64);
+    for e in &ex {
+        let family = crate::props::c08::family_of(&e.name);
+        // a locking clause is no part of the portable subset (SQLite has none)
+        if !portable.contains(&family.as_str()) || e.name.contains("lock=true") {
+            continue;
+        }
+        let Ok(lite) = catch(|| (e.real)(Dialect::Sqlite, false)) else { continue };
+        if !(lite.starts_with("SELECT") || lite.starts_with("WITH")) {
+            continue;
+        }
+        let Ok(want) = with_db(|db| db.query(&lite, &[])) else {
+            skipped += 1; // SQLite's own rendering is C07's business
+            continue;
+        };
+        let ordered = lite.rfind(" ORDER BY ").map_or(false, |i| lite.rfind(')').map_or(true, |j| i > j));
+        let canon = |r: &crate::sqlite::Rows| if ordered { row_list(r) } else { row_multiset(r) };
+        for d in [Dialect::Mysql, Dialect::Postgres] {
+            // a construct the dialect does not have (its reference is None) is not portable to it
+            if (e.reference)(d, false).is_none() {
+                continue;
+            }
+            let mut fail = |sig: &str, detail: String| {
+                rep.raw_failures.inc();
+                rep.violation(Violation { key: format!("construct|{}|{sig}|{family}", d.name()), what: format!("{}: {detail}", e.name), case: json!({"kind": "construct", "name": e.name, "dialect": d.name()}) });
+            };
+            let real = match catch(|| (e.real)(d, false)) {
+                Ok(s) => s,
+                Err(p) => {
+                    fail("render-panic", format!("to_string panicked: {p}"));
+                    continue;
+                }
+            };
+            let t = match transliterate(d, &real) {
+                Ok(t) => t,
+                Err(m) => {
+                    fail("cannot-transliterate", format!("{real:?}: {m}"));
+                    continue;
+                }
+            };
+            executed += 1;
+            match with_db(|db| db.query(&t, &[])) {
+                Err(m) => fail("transliterated-form-rejected", format!("{} rendering {real:?}, transliterated {t:?}, is rejected by sqlite3 ({m}); the SQLite rendering {lite:?} is accepted", d.name())),
+                Ok(r) => {
+                    if canon(&r) != canon(&want) {
+                        fail("denotes-a-different-query", format!("{} rendering {real:?} returns {:?}; the SQLite rendering {lite:?} returns {:?}", d.name(), canon(&r), canon(&want)));
+                    }
+                }
+            }
+        }
+    }
+    (executed, skipped)
+}
+
 fn run_literals(rep: &Arc<Report>) -> u64 {
     let mut vals: Vec<Value> = vec![];
     for t in ["", "plain", "it's", "a\\b", "tab\there", "l1\nl2", "cr\rx", "q\"q", "sub\u{1a}z", "bs\u{8}x", "pct%_", "é😀", "'; --", "\\", "\\'"] {
@@ -561,6 +632,9 @@ pub fn run(rep: &Arc<Report>) {
         exhaustive &= s2.exhaustive;
     }
     rep.set("portable_select_menu_size", json!(m.menu.len()));
+    let (cx, cs) = run_constructs(rep);
+    rep.set("construct_family_statements_executed_three_way", json!(cx));
+    rep.set("construct_family_statements_skipped", json!(cs));
     let lits = run_literals(rep);
     rep.set("literal_cases_executed_three_way", json!(lits));
     let (te, ts) = run_expr_trees(rep);
